@@ -129,10 +129,10 @@ macro_rules! proofs {
     )*};
 }
 
-// @harness c14_tail_n2_r2_e3 tier=quick unwind=8 block=256 small=64 mem=9 timeout=1378
-// @harness c14_tail_n2_r2_e3_reach tier=quick unwind=8 block=256 small=64 mem=16 timeout=1800 twin
-// @harness c14_tail_n3_r3_e3 tier=quick unwind=8 block=256 small=64 mem=17 timeout=3600
-// @harness c14_tail_n3_r2_e3 tier=thorough unwind=8 block=256 small=64 mem=24 timeout=3000
+// @harness c14_tail_n2_r2_e3 tier=quick unwind=8 block=256 small=64 mem=7 timeout=1605
+// @harness c14_tail_n2_r2_e3_reach tier=quick unwind=8 block=256 small=64 mem=6 timeout=1717 twin
+// @harness c14_tail_n3_r3_e3 tier=quick unwind=8 block=256 small=64 mem=12 timeout=3600
+// @harness c14_tail_n3_r2_e3 tier=thorough unwind=8 block=256 small=64 mem=24 timeout=3000 stretch
 // @harness c14_tail_n3_r3_e5 tier=thorough unwind=12 block=256 small=64 mem=44 timeout=3600 stretch
 proofs! {
     c14_tail_n2_r2_e3 => tail_body::<2, 2, 3, 6>(false);
